@@ -23,9 +23,10 @@
                       without it the model faults or delivers to a window that is not a child,
                       while [key_order] ignores the pointer.
      [dsrc_ok R]      (on_term_mouse only) the drag source, if any, is a window of the tree.
-   One divergence between model and spec, harmless and made explicit in [ds_after] /
-   [mouse_spec_equiv]: the repaired on_term_mouse forgets the drag source at the end of a drag,
-   [mouse_spec] keeps it (and never reads it while no drag is on). *)
+   The drag bookkeeping of on_term_mouse is exactly the one of [mouse_spec] (plain equality of
+   the drag state); [ds_equiv] / [mouse_spec_equiv] remain as a spec-level fact (the spec never
+   reads the source while no drag is on).  The routing code holds references only for the
+   active frames ([hold s w] ... [release s w]): every theorem states [i_holds s' = i_holds s]. *)
 From Coq Require Import ZArith List Bool Lia ZifyBool Permutation.
 From Tickit Require Import RectDefs WinRectSet WinDefs WinInput WinInputSpec.
 Import ListNotations.
@@ -712,6 +713,7 @@ Lemma kid_ids_Q R H L w :
   kid_ids (Q R H L) w = match f_find R w with Some n => map t_id (t_kids n) | None => [] end.
 Proof. reflexivity. Qed.
 
+(* hold_all / release_all are no longer used by the repaired routing; the facts stay true *)
 Lemma hold_all_Q R l : forall H L, hold_all (Q R H L) l = Q R (rev l ++ H) L.
 Proof.
   unfold hold_all. induction l as [|a l IH]; intros H L; [reflexivity|].
@@ -1170,7 +1172,7 @@ Proof.
   change (i_root (Q R H L)) with R.
   rewrite (f_parent_unique R wn a Hu Hs Ha). cbn [opt_is]. rewrite Z.eqb_refl. cbn [negb].
   rewrite look_Q, (f_find_unique R a Hu (subl_kid _ _ _ Hs Ha)).
-  rewrite try_child_spec. cbn [flat_map]. unfold G at 1 3 5.
+  rewrite try_child_spec. cbn [flat_map]. unfold G at 1 3.
   destruct (w_steal (t_info a) || cell_inb (w_rect (t_info a)) (line, col)) eqn:E; cbn [app].
   - rewrite (Hok a Ha).
     set (ro := mouse_order a (line - top (w_rect (t_info a))) (col - left (w_rect (t_info a)))).
@@ -1260,33 +1262,17 @@ Definition to_source (fuel : nat) (cfg : defects) (claims : Z -> Z) (btn line co
   | Some src =>
     match (if mem src (i_freed s) then None else f_abs_origin (i_root s) src) with
     | None => i_faulty s
-    | Some o =>
-      let '(s', r) := handle_mouse fuel cfg claims s src ty' btn (line - fst o) (col - snd o) in
-      drop_ref cfg s' r
+    | Some o => fst (handle_mouse fuel cfg claims s src ty' btn (line - fst o) (col - snd o))
     end
   end.
 
-Definition start_rel1 (cfg : defects) (rootid : Z) (s' : istate) (src : option Z) : istate :=
+(* the source remembered at a drag start: only a window that is still in the tree *)
+Definition start_src (cfg : defects) (st' : root) (src : option Z) : option Z :=
   match src with
-  | Some x => if negb (d_drag_stale cfg) && (x =? rootid) then release s' x else s'
-  | None => s'
+  | Some x => if d_drag_stale cfg then Some x
+              else match t_find x (r_tree st') with Some _ => Some x | None => None end
+  | None => None
   end.
-Definition start_rel2 (cfg : defects) (rootid : Z) (s' : istate) : istate :=
-  match r_dsrc (i_root s') with
-  | Some old => if d_drag_stale cfg || (old =? rootid) then s' else release s' old
-  | None => s'
-  end.
-Definition start_set (s' : istate) (src : option Z) : istate :=
-  let st' := i_root s' in
-  i_set_root s' (set_drag st' true (r_lbtn st') (r_lline st') (r_lcol st') src).
-Definition end_set (cfg : defects) (rootid : Z) (s'' : istate) : istate :=
-  let st'' := i_root s'' in
-  if d_drag_stale cfg then
-    i_set_root s'' (set_drag st'' false (r_lbtn st'') (r_lline st'') (r_lcol st'') (r_dsrc st''))
-  else
-    let s3 := match r_dsrc st'' with Some src => if src =? rootid then s'' else release s'' src | None => s'' end in
-    let st3 := i_root s3 in
-    i_set_root s3 (set_drag st3 false (r_lbtn st3) (r_lline st3) (r_lcol st3) None).
 
 Definition tm_pre (fuel : nat) (cfg : defects) (claims : Z -> Z) (s : istate) (ty btn line col : Z) : istate :=
   let rootid := t_id (r_tree (i_root s)) in
@@ -1294,21 +1280,23 @@ Definition tm_pre (fuel : nat) (cfg : defects) (claims : Z -> Z) (s : istate) (t
   if ty =? 1 then i_set_root s (set_drag st (r_dragging st) btn line col (r_dsrc st))
   else if (ty =? 2) && negb (r_dragging st) then
     let '(s', src) := handle_mouse fuel cfg claims s rootid 5 (r_lbtn st) (r_lline st) (r_lcol st) in
-    start_set (start_rel2 cfg rootid (start_rel1 cfg rootid s' src)) src
+    let st' := i_root s' in
+    i_set_root s' (set_drag st' true (r_lbtn st') (r_lline st') (r_lcol st') (start_src cfg st' src))
   else if (ty =? 3) && r_dragging st then
-    let '(s', r) := handle_mouse fuel cfg claims s rootid 7 btn line col in
-    end_set cfg rootid (to_source fuel cfg claims btn line col (drop_ref cfg s' r) 8)
+    let '(s', _) := handle_mouse fuel cfg claims s rootid 7 btn line col in
+    let s'' := to_source fuel cfg claims btn line col s' 8 in
+    let st'' := i_root s'' in
+    i_set_root s'' (set_drag st'' false (r_lbtn st'') (r_lline st'') (r_lcol st'') (r_dsrc st''))
   else s.
 
 Definition tm_post (fuel : nat) (cfg : defects) (claims : Z -> Z) (ty btn line col : Z)
   (s2 : istate) (handled : option Z) : istate :=
-  drop_ref cfg
-    (if (ty =? 2) &&
-        match r_dsrc (i_root s2) with
-        | Some src => negb (opt_is handled (Some src))
-        | None => false
-        end
-     then to_source fuel cfg claims btn line col s2 6 else s2) handled.
+  if (ty =? 2) &&
+     match r_dsrc (i_root s2) with
+     | Some src => negb (opt_is handled (Some src))
+     | None => false
+     end
+  then to_source fuel cfg claims btn line col s2 6 else s2.
 
 Definition term_mouse_f (fuel : nat) (cfg : defects) (claims : Z -> Z) (s : istate) (ty btn line col : Z) : istate :=
   let '(s2, handled) :=
@@ -1319,7 +1307,7 @@ Definition term_mouse_f (fuel : nat) (cfg : defects) (claims : Z -> Z) (s : ista
 Lemma term_mouse_f_ifuel cfg claims s ty btn line col :
   term_mouse_f ifuel cfg claims s ty btn line col = term_mouse cfg claims s ty btn line col.
 Proof.
-  unfold term_mouse_f, term_mouse, tm_pre, tm_post, to_source, start_set, start_rel1, start_rel2, end_set.
+  unfold term_mouse_f, term_mouse, tm_pre, tm_post, to_source, start_src.
   reflexivity.
 Qed.
 
@@ -1361,9 +1349,6 @@ Qed.
 Lemma remove_one_head x H : remove_one x (x :: H) = H.
 Proof. cbn [remove_one]. rewrite Z.eqb_refl. reflexivity. Qed.
 
-Lemma drop_ref_Q R H L r : drop_ref no_defects (Q R (push r H) L) r = Q R H L.
-Proof. destruct r as [x|]; [|reflexivity]. cbn [drop_ref d_drag_stale no_defects push]. rewrite release_Q, remove_one_head. reflexivity. Qed.
-
 Lemma to_source_Q fuel claims R btn line col ty' H L :
   ids_unique R -> (height (r_tree R) < fuel)%nat -> dsrc_ok R ->
   to_source fuel no_defects claims btn line col (Q R H L) ty' =
@@ -1380,7 +1365,7 @@ Proof.
   assert (Hs : subl sb (forest R)) by (exists (r_tree R); split; [left; reflexivity|exact Hsub]).
   assert (Hhs : (height sb < fuel)%nat) by (apply height_sub in Hsub; lia).
   rewrite (handle_mouse_Q claims R ty' btn Hu fuel sb Hs Hhs).
-  rewrite drop_ref_Q. rewrite mlog_spec. reflexivity.
+  cbn [fst]. rewrite mlog_spec. reflexivity.
 Qed.
 
 Definition set_ds (R : root) (d : dragst) : root :=
@@ -1392,8 +1377,7 @@ Proof. destruct R; reflexivity. Qed.
 Lemma HMroot fuel claims R R1 ty btn l c H L :
   ids_unique R -> (height (r_tree R) < fuel)%nat -> forest R1 = forest R ->
   handle_mouse fuel no_defects claims (Q R1 H L) (t_id (r_tree R)) ty btn l c =
-  (Q R1 (push (mclaim claims ty (mouse_order (r_tree R) l c)) H)
-        (mlog claims ty btn (mouse_order (r_tree R) l c) L),
+  (Q R1 H (mlog claims ty btn (mouse_order (r_tree R) l c) L),
    mclaim claims ty (mouse_order (r_tree R) l c)).
 Proof.
   intros Hu Hh Hf.
@@ -1409,12 +1393,6 @@ Proof.
   intros Hx. rewrite (mclaim_spec claims ty 0) in Hx. apply mouse_phase_claimer in Hx.
   destruct Hx as (l' & c' & Hi & _). eapply mouse_order_ids. exact Hi.
 Qed.
-
-(* what the repaired on_term_mouse does to the drag fields: as the spec says, except that the
-   source is also forgotten when the drag ends *)
-Definition ds_after (R : root) (ty : Z) (d : dragst) : dragst :=
-  if (ty =? 3) && r_dragging R
-  then mkDrag (ds_dragging d) (ds_btn d) (ds_line d) (ds_col d) None else d.
 
 (* mouse_spec = what happens before the ordinary delivery, then the ordinary delivery and
    the OUTSIDE that may follow it *)
@@ -1463,52 +1441,29 @@ Proof.
   - rewrite app_nil_r. reflexivity.
 Qed.
 
-Definition isQ (R : root) (L : list iev) (s : istate) : Prop := exists H', s = Q R H' L.
-
-Lemma isQ_release R L s x : isQ R L s -> isQ R L (release s x).
-Proof. intros (H' & ->). rewrite release_Q. eexists; reflexivity. Qed.
-
-Lemma isQ_Q R H L : isQ R L (Q R H L).
-Proof. eexists; reflexivity. Qed.
-
 Lemma tm_pre_Q fuel claims R ty btn line col H L :
   ids_unique R -> (height (r_tree R) < fuel)%nat -> dsrc_ok R ->
-  isQ (set_ds R (ds_after R ty (snd (spec_pre claims (r_tree R) (ds_of R) ty btn line col))))
-      (rev (fst (spec_pre claims (r_tree R) (ds_of R) ty btn line col)) ++ L)
-      (tm_pre fuel no_defects claims (Q R H L) ty btn line col).
+  tm_pre fuel no_defects claims (Q R H L) ty btn line col =
+  Q (set_ds R (snd (spec_pre claims (r_tree R) (ds_of R) ty btn line col))) H
+    (rev (fst (spec_pre claims (r_tree R) (ds_of R) ty btn line col)) ++ L).
 Proof.
-  intros Hu Hh Hok. unfold tm_pre, spec_pre, ds_after. change (i_root (Q R H L)) with R. cbv zeta.
+  intros Hu Hh Hok. unfold tm_pre, spec_pre. change (i_root (Q R H L)) with R. cbv zeta.
   cbn [ds_of ds_dragging ds_btn ds_line ds_col ds_src].
-  destruct (ty =? 1) eqn:E1.
-  { assert (ty = 1) by lia. subst ty. cbn [Z.eqb Pos.eqb andb fst snd rev app]. apply isQ_Q. }
+  destruct (ty =? 1) eqn:E1; [reflexivity|].
   destruct ((ty =? 2) && negb (r_dragging R)) eqn:E2.
-  { assert (ty = 2) by lia. subst ty. cbn [Z.eqb Pos.eqb andb fst snd].
-    rewrite HMroot by (assumption || reflexivity). rewrite <- mlog_spec, <- mclaim_spec.
-    set (src := mclaim claims 5 _). set (L5 := mlog claims 5 _ _ L).
-    assert (HA : isQ R L5 (start_rel1 no_defects (t_id (r_tree R)) (Q R (push src H) L5) src)).
-    { unfold start_rel1. destruct src as [x|]; [|apply isQ_Q].
-      destruct (negb (d_drag_stale no_defects) && (x =? t_id (r_tree R))); [apply isQ_release|]; apply isQ_Q. }
-    destruct HA as (HA & ->).
-    assert (HB : isQ R L5 (start_rel2 no_defects (t_id (r_tree R)) (Q R HA L5))).
-    { unfold start_rel2. change (i_root (Q R HA L5)) with R. destruct (r_dsrc R) as [old|]; [|apply isQ_Q].
-      destruct (d_drag_stale no_defects || (old =? t_id (r_tree R))); [|apply isQ_release]; apply isQ_Q. }
-    destruct HB as (HB & ->).
-    unfold start_set. cbv zeta. change (i_root (Q R HB L5)) with R. apply isQ_Q. }
+  { cbn [fst snd]. rewrite HMroot by (assumption || reflexivity). rewrite <- mlog_spec, <- mclaim_spec.
+    change (i_root (Q R H (mlog claims 5 (r_lbtn R) (mouse_order (r_tree R) (r_lline R) (r_lcol R)) L))) with R.
+    assert (Hsrc : start_src no_defects R (mclaim claims 5 (mouse_order (r_tree R) (r_lline R) (r_lcol R))) =
+                   mclaim claims 5 (mouse_order (r_tree R) (r_lline R) (r_lcol R))).
+    { unfold start_src. destruct (mclaim claims 5 _) as [x|] eqn:Ex; [|reflexivity].
+      cbn [d_drag_stale no_defects]. apply mclaim_in_tree in Ex.
+      destruct (t_find_some x _ Ex) as (n & Hn). rewrite Hn. reflexivity. }
+    rewrite Hsrc. reflexivity. }
   destruct ((ty =? 3) && r_dragging R) eqn:E3.
-  { assert (ty = 3) by lia. subst ty. cbn [fst snd].
-    rewrite HMroot by (assumption || reflexivity). rewrite drop_ref_Q.
+  { cbn [fst snd]. rewrite HMroot by (assumption || reflexivity).
     rewrite to_source_Q by assumption.
-    rewrite rev_app_distr, <- app_assoc, <- mlog_spec.
-    set (L8 := rev _ ++ mlog claims 7 _ _ L).
-    unfold end_set. cbv zeta. change (i_root (Q R H L8)) with R.
-    cbn [d_drag_stale no_defects].
-    assert (HA : isQ R L8 (match r_dsrc R with
-                           | Some src => if src =? t_id (r_tree R) then Q R H L8 else release (Q R H L8) src
-                           | None => Q R H L8 end)).
-    { destruct (r_dsrc R) as [src|]; [|apply isQ_Q].
-      destruct (src =? t_id (r_tree R)); [|apply isQ_release]; apply isQ_Q. }
-    destruct HA as (HA & ->). change (i_root (Q R HA L8)) with R. apply isQ_Q. }
-  cbn [fst snd rev app]. rewrite set_ds_id. apply isQ_Q.
+    rewrite rev_app_distr, <- app_assoc, <- mlog_spec. reflexivity. }
+  cbn [fst snd rev app]. rewrite set_ds_id. reflexivity.
 Qed.
 
 Lemma tm_post_Q fuel claims R1 ty btn line col H L :
@@ -1521,87 +1476,79 @@ Proof.
   unfold tm_post, spec_post. rewrite <- !mclaim_spec.
   set (h := mclaim claims ty _). rewrite rev_app_distr, <- app_assoc, <- mlog_spec.
   set (L2 := mlog claims ty btn _ L).
-  change (i_root (Q R1 (push h H) L2)) with R1.
-  destruct (ty =? 2) eqn:E2; cbn [andb]; [|apply drop_ref_Q].
-  destruct (r_dsrc R1) as [src|] eqn:Es; [|apply drop_ref_Q].
-  destruct (opt_is h (Some src)); cbn [negb]; [apply drop_ref_Q|].
-  rewrite to_source_Q by assumption. rewrite Es. apply drop_ref_Q.
-Qed.
-
-(* C14, one terminal mouse event against the spec. *)
-Theorem term_mouse_Q fuel claims R ty btn line col H L :
-  ids_unique R -> (height (r_tree R) < fuel)%nat -> dsrc_ok R ->
-  isQ (set_ds R (ds_after R ty (snd (mouse_spec claims (r_tree R) (ds_of R) ty btn line col))))
-      (rev (fst (mouse_spec claims (r_tree R) (ds_of R) ty btn line col)) ++ L)
-      (term_mouse_f fuel no_defects claims (Q R H L) ty btn line col).
-Proof.
-  intros Hu Hh Hok. unfold term_mouse_f. change (i_root (Q R H L)) with R.
-  destruct (tm_pre_Q fuel claims R ty btn line col H L Hu Hh Hok) as (H1 & Hpre). rewrite Hpre.
-  rewrite mouse_spec_split. cbn [fst snd].
-  set (d := snd (spec_pre claims (r_tree R) (ds_of R) ty btn line col)) in *.
-  set (R1 := set_ds R (ds_after R ty d)) in *.
-  assert (Ht : r_tree R1 = r_tree R) by reflexivity.
-  assert (Hu1 : ids_unique R1) by exact Hu.
-  assert (Hok1 : dsrc_ok R1).
-  { unfold dsrc_ok. rewrite Ht. subst R1 d. unfold set_ds, ds_after, spec_pre.
-    cbn [ds_of ds_dragging ds_btn ds_line ds_col ds_src].
-    destruct (ty =? 1); [cbn [andb snd ds_src set_drag r_dsrc]|].
-    { destruct ((ty =? 3) && r_dragging R); cbn [ds_src set_drag r_dsrc]; [exact I|exact Hok]. }
-    destruct ((ty =? 2) && negb (r_dragging R)) eqn:E2.
-    { assert (Hn3 : (ty =? 3) = false) by lia. rewrite Hn3. cbn [andb snd ds_src set_drag r_dsrc].
-      rewrite <- mclaim_spec. destruct (mclaim claims 5 _) as [x|] eqn:Ex; [|exact I].
-      eapply mclaim_in_tree. exact Ex. }
-    destruct ((ty =? 3) && r_dragging R); cbn [snd ds_src set_drag r_dsrc]; [exact I|exact Hok]. }
-  rewrite <- Ht at 1.
-  rewrite (tm_post_Q fuel claims R1 ty btn line col H1 _ Hu1 Hh Hok1).
-  rewrite rev_app_distr, <- app_assoc. rewrite Ht.
-  assert (Hsrc : spec_post claims (r_tree R) (r_dsrc R1) ty btn line col =
-                 spec_post claims (r_tree R) (ds_src d) ty btn line col).
-  { subst R1. unfold set_ds, ds_after. destruct ((ty =? 3) && r_dragging R) eqn:E3; [|reflexivity].
-    unfold spec_post. assert (Hn2 : (ty =? 2) = false) by lia. rewrite Hn2. reflexivity. }
-  rewrite Hsrc. apply isQ_Q.
+  change (i_root (Q R1 H L2)) with R1.
+  destruct (ty =? 2) eqn:E2; cbn [andb]; [|reflexivity].
+  destruct (r_dsrc R1) as [src|] eqn:Es; [|reflexivity].
+  destruct (opt_is h (Some src)); cbn [negb]; [reflexivity|].
+  rewrite to_source_Q by assumption. rewrite Es. reflexivity.
 Qed.
 
 Lemma ds_of_set_ds R d : ds_of (set_ds R d) = d.
 Proof. destruct d; reflexivity. Qed.
 
-Lemma dsrc_ok_after claims R ty btn line col :
-  dsrc_ok R ->
-  dsrc_ok (set_ds R (ds_after R ty (snd (mouse_spec claims (r_tree R) (ds_of R) ty btn line col)))).
+Lemma dsrc_ok_pre claims R ty btn line col :
+  dsrc_ok R -> dsrc_ok (set_ds R (snd (spec_pre claims (r_tree R) (ds_of R) ty btn line col))).
 Proof.
   intros Hok. unfold dsrc_ok. change (r_tree (set_ds R _)) with (r_tree R).
-  rewrite mouse_spec_split. cbn [snd]. unfold set_ds, ds_after, spec_pre.
-  cbn [ds_of ds_dragging ds_btn ds_line ds_col ds_src].
-  destruct (ty =? 1); [cbn [andb snd ds_src set_drag r_dsrc]|].
-  { destruct ((ty =? 3) && r_dragging R); cbn [ds_src set_drag r_dsrc]; [exact I|exact Hok]. }
-  destruct ((ty =? 2) && negb (r_dragging R)) eqn:E2.
-  { assert (Hn3 : (ty =? 3) = false) by lia. rewrite Hn3. cbn [andb snd ds_src set_drag r_dsrc].
+  unfold set_ds, spec_pre. cbn [ds_of ds_dragging ds_btn ds_line ds_col ds_src].
+  destruct (ty =? 1); [exact Hok|].
+  destruct ((ty =? 2) && negb (r_dragging R)).
+  { cbn [snd ds_src set_drag r_dsrc].
     rewrite <- mclaim_spec. destruct (mclaim claims 5 _) as [x|] eqn:Ex; [|exact I].
     eapply mclaim_in_tree. exact Ex. }
-  destruct ((ty =? 3) && r_dragging R); cbn [snd ds_src set_drag r_dsrc]; [exact I|exact Hok].
+  destruct ((ty =? 3) && r_dragging R); exact Hok.
+Qed.
+
+Lemma dsrc_ok_after claims R ty btn line col :
+  dsrc_ok R ->
+  dsrc_ok (set_ds R (snd (mouse_spec claims (r_tree R) (ds_of R) ty btn line col))).
+Proof. intros Hok. rewrite mouse_spec_split. cbn [snd]. apply dsrc_ok_pre. exact Hok. Qed.
+
+(* C14, one terminal mouse event against the spec: exactly the deliveries and the drag
+   bookkeeping of [mouse_spec]; every reference taken is given back. *)
+Theorem term_mouse_Q fuel claims R ty btn line col H L :
+  ids_unique R -> (height (r_tree R) < fuel)%nat -> dsrc_ok R ->
+  term_mouse_f fuel no_defects claims (Q R H L) ty btn line col =
+  Q (set_ds R (snd (mouse_spec claims (r_tree R) (ds_of R) ty btn line col))) H
+    (rev (fst (mouse_spec claims (r_tree R) (ds_of R) ty btn line col)) ++ L).
+Proof.
+  intros Hu Hh Hok. unfold term_mouse_f. change (i_root (Q R H L)) with R.
+  rewrite (tm_pre_Q fuel claims R ty btn line col H L Hu Hh Hok).
+  rewrite mouse_spec_split. cbn [fst snd].
+  set (d := snd (spec_pre claims (r_tree R) (ds_of R) ty btn line col)) in *.
+  set (R1 := set_ds R d) in *.
+  assert (Ht : r_tree R1 = r_tree R) by reflexivity.
+  assert (Hu1 : ids_unique R1) by exact Hu.
+  assert (Hok1 : dsrc_ok R1) by (apply dsrc_ok_pre; exact Hok).
+  rewrite <- Ht at 1.
+  rewrite (tm_post_Q fuel claims R1 ty btn line col H _ Hu1 Hh Hok1).
+  rewrite rev_app_distr, <- app_assoc. rewrite Ht.
+  assert (Hsrc : r_dsrc R1 = ds_src d) by (subst R1; destruct d; reflexivity).
+  rewrite Hsrc. reflexivity.
 Qed.
 
 (* C14, one terminal mouse event: with handlers that do not change the tree, on_term_mouse
-   delivers exactly the events of [mouse_spec], and its drag bookkeeping is the one of
-   [mouse_spec] -- except that the repaired code also forgets the drag source when the drag
-   ends (see [ds_after]; the spec never reads the source while no drag is on, [mouse_spec_equiv]). *)
+   delivers exactly the events of [mouse_spec], and its drag bookkeeping is exactly the one
+   of [mouse_spec]. *)
 Theorem C14_term_mouse_f fuel claims s ty btn line col :
   quiet s -> ids_unique (i_root s) -> (height (r_tree (i_root s)) < fuel)%nat -> dsrc_ok (i_root s) ->
   let R := i_root s in
   let MS := mouse_spec claims (r_tree R) (ds_of R) ty btn line col in
   let s' := term_mouse_f fuel no_defects claims s ty btn line col in
   i_log s' = rev (fst MS) ++ i_log s /\
-  i_root s' = set_ds R (ds_after R ty (snd MS)) /\
-  ds_of (i_root s') = ds_after R ty (snd MS) /\
+  i_root s' = set_ds R (snd MS) /\
+  ds_of (i_root s') = snd MS /\
   r_tree (i_root s') = r_tree R /\ r_orphans (i_root s') = r_orphans R /\
+  i_holds s' = i_holds s /\
   i_fault s' = false /\ quiet s' /\ dsrc_ok (i_root s').
 Proof.
   intros Hq Hu Hh Hok. cbv zeta.
-  destruct (term_mouse_Q fuel claims (i_root s) ty btn line col (i_holds s) (i_log s) Hu Hh Hok) as (H' & Heq).
+  pose proof (term_mouse_Q fuel claims (i_root s) ty btn line col (i_holds s) (i_log s) Hu Hh Hok) as Heq.
   rewrite <- (quiet_Q s Hq) in Heq. rewrite Heq.
-  cbn [Q i_log i_root i_fault].
+  cbn [Q i_log i_root i_fault i_holds].
   split; [reflexivity|]. split; [reflexivity|]. split; [apply ds_of_set_ds|].
-  split; [reflexivity|]. split; [reflexivity|]. split; [reflexivity|]. split; [apply Q_quiet|].
+  split; [reflexivity|]. split; [reflexivity|]. split; [reflexivity|]. split; [reflexivity|].
+  split; [apply Q_quiet|].
   apply dsrc_ok_after. exact Hok.
 Qed.
 
@@ -1611,9 +1558,10 @@ Corollary C14_term_mouse claims s ty btn line col :
   let MS := mouse_spec claims (r_tree R) (ds_of R) ty btn line col in
   let s' := term_mouse no_defects claims s ty btn line col in
   i_log s' = rev (fst MS) ++ i_log s /\
-  i_root s' = set_ds R (ds_after R ty (snd MS)) /\
-  ds_of (i_root s') = ds_after R ty (snd MS) /\
+  i_root s' = set_ds R (snd MS) /\
+  ds_of (i_root s') = snd MS /\
   r_tree (i_root s') = r_tree R /\ r_orphans (i_root s') = r_orphans R /\
+  i_holds s' = i_holds s /\
   i_fault s' = false /\ quiet s' /\ dsrc_ok (i_root s').
 Proof.
   intros Hq Hu Hh Hok. cbv zeta. rewrite <- term_mouse_f_ifuel.
@@ -1894,12 +1842,12 @@ Theorem C14_drag claims t pre ty btn line col :
   (forall post, run_mouse claims t (pre ++ (ty, btn, line, col) :: post) drag_init =
                 run_mouse claims t pre drag_init ++ e :: run_mouse claims t post d') /\
   (* START: only on a DRAG while no drag is on; button and absolute position of the most
-     recent PRESS (0,0,0 if there was none) *)
+     recent PRESS (button 0 at (-1,-1), the initial drag state, if there was none) *)
   (forall w b l c, In (IMouse w 5 b l c) e ->
      ty = 2 /\ ds_dragging d = false /\
      exists o, tree_origin t w = Some o /\
        (b, l + fst o - top (w_rect (t_info t)), c + snd o - left (w_rect (t_info t))) =
-       last_press pre (0, 0, 0)) /\
+       last_press pre (0, -1, -1)) /\
   (* OUTSIDE: only on a DRAG, with a drag on and a source that claimed a START and did not take
      this DRAG; delivered inside the source's subtree *)
   (forall w b l c, In (IMouse w 6 b l c) e ->
@@ -1920,7 +1868,7 @@ Theorem C14_drag claims t pre ty btn line col :
 Proof.
   intros Hnd Hraw. cbv zeta.
   set (d := run_ds claims t pre drag_init).
-  assert (Hpress : press_of d = last_press pre (0, 0, 0)) by (apply (run_ds_press claims t pre drag_init)).
+  assert (Hpress : press_of d = last_press pre (0, -1, -1)) by (apply (run_ds_press claims t pre drag_init)).
   assert (Hsrc : src_inv claims t d) by (apply run_ds_src_inv, src_inv_init).
   split.
   { intros post. rewrite run_mouse_app, run_ds_app. reflexivity. }
@@ -1987,17 +1935,6 @@ Proof.
     + cbn [fst snd ds_dragging ds_btn ds_line ds_col ds_src]. repeat split. exact Hs.
 Qed.
 
-Lemma ds_after_equiv claims R ty btn line col :
-  ds_equiv (ds_after R ty (snd (mouse_spec claims (r_tree R) (ds_of R) ty btn line col)))
-           (snd (mouse_spec claims (r_tree R) (ds_of R) ty btn line col)).
-Proof.
-  unfold ds_after. destruct ((ty =? 3) && r_dragging R) eqn:E3; [|apply ds_equiv_refl].
-  assert (ty = 3) by lia. subst ty. assert (Hd : r_dragging R = true) by lia.
-  unfold mouse_spec. cbn [ds_of ds_dragging ds_btn ds_line ds_col ds_src]. rewrite Hd.
-  cbn [Z.eqb Pos.eqb andb negb snd ds_dragging ds_btn ds_line ds_col ds_src]. unfold ds_equiv.
-  cbn [ds_dragging ds_btn ds_line ds_col ds_src]. repeat split. intros Hf. discriminate Hf.
-Qed.
-
 Fixpoint run_term_mouse (fuel : nat) (claims : Z -> Z) (s : istate) (evs : list rawev) : istate :=
   match evs with
   | [] => s
@@ -2006,32 +1943,30 @@ Fixpoint run_term_mouse (fuel : nat) (claims : Z -> Z) (s : istate) (evs : list 
   end.
 
 (* C14, the model against the spec over every sequence of terminal mouse events (handlers do
-   not change the tree) *)
-Theorem C14_term_mouse_seq fuel claims evs : forall s ds,
+   not change the tree): the same deliveries, and the same drag state, as [run_mouse] /
+   [run_ds] started from the root's drag fields *)
+Theorem C14_term_mouse_seq fuel claims evs : forall s,
   quiet s -> ids_unique (i_root s) -> (height (r_tree (i_root s)) < fuel)%nat ->
-  dsrc_ok (i_root s) -> ds_equiv (ds_of (i_root s)) ds ->
+  dsrc_ok (i_root s) ->
   let s' := run_term_mouse fuel claims s evs in
-  i_log s' = rev (concat (run_mouse claims (r_tree (i_root s)) evs ds)) ++ i_log s /\
-  ds_equiv (ds_of (i_root s')) (run_ds claims (r_tree (i_root s)) evs ds) /\
-  r_tree (i_root s') = r_tree (i_root s) /\ quiet s'.
+  i_log s' = rev (concat (run_mouse claims (r_tree (i_root s)) evs (ds_of (i_root s)))) ++ i_log s /\
+  ds_of (i_root s') = run_ds claims (r_tree (i_root s)) evs (ds_of (i_root s)) /\
+  r_tree (i_root s') = r_tree (i_root s) /\ i_holds s' = i_holds s /\ quiet s'.
 Proof.
-  induction evs as [|[[[ty btn] line] col] evs IH]; intros s ds Hq Hu Hh Hok Heq; cbv zeta.
-  { cbn [run_term_mouse run_mouse run_ds concat rev app]. split; [reflexivity|]. split; [exact Heq|]. split; [reflexivity|exact Hq]. }
+  induction evs as [|[[[ty btn] line] col] evs IH]; intros s Hq Hu Hh Hok; cbv zeta.
+  { cbn [run_term_mouse run_mouse run_ds concat rev app]. repeat (split; [reflexivity|]). exact Hq. }
   cbn [run_term_mouse run_mouse run_ds concat].
   destruct (C14_term_mouse_f fuel claims s ty btn line col Hq Hu Hh Hok)
-    as (Hlog & _ & Hds & Htree & Horph & _ & Hq1 & Hok1).
+    as (Hlog & _ & Hds & Htree & Horph & Hholds & _ & Hq1 & Hok1).
   set (s1 := term_mouse_f fuel no_defects claims s ty btn line col) in *.
-  destruct (mouse_spec_equiv claims (r_tree (i_root s)) (ds_of (i_root s)) ds ty btn line col Heq) as (Hfst & Hsnd).
   assert (Hu1 : ids_unique (i_root s1)).
   { unfold ids_unique, forest_ids, forest. rewrite Htree, Horph. exact Hu. }
   assert (Hh1 : (height (r_tree (i_root s1)) < fuel)%nat) by (rewrite Htree; exact Hh).
-  assert (Heq1 : ds_equiv (ds_of (i_root s1)) (snd (mouse_spec claims (r_tree (i_root s)) ds ty btn line col))).
-  { rewrite Hds. eapply ds_equiv_trans; [apply ds_after_equiv|exact Hsnd]. }
-  destruct (IH s1 _ Hq1 Hu1 Hh1 Hok1 Heq1) as (Hlog' & Hds' & Htree' & Hq').
-  rewrite Htree in Hlog', Hds', Htree'.
+  destruct (IH s1 Hq1 Hu1 Hh1 Hok1) as (Hlog' & Hds' & Htree' & Hholds' & Hq').
+  rewrite Htree, Hds in Hlog', Hds'. rewrite Htree in Htree'.
   split.
-  { rewrite Hlog', Hlog, Hfst. rewrite rev_app_distr, <- app_assoc. reflexivity. }
-  split; [exact Hds'|]. split; [exact Htree'|exact Hq'].
+  { rewrite Hlog', Hlog. rewrite rev_app_distr, <- app_assoc. reflexivity. }
+  split; [exact Hds'|]. split; [exact Htree'|]. split; [congruence|exact Hq'].
 Qed.
 
 (* ==================================================================================== *)
@@ -2465,18 +2400,17 @@ Section SelfClose.
       set (cs := kids_remove w0 ch).
       assert (Hinc : incl cs ch) by (intros x Hx; apply filter_In in Hx; apply Hx).
       assert (Hndcs : NoDup (flat_map t_ids cs)) by (apply NoDup_flat_filter; exact Hndch).
-      rewrite hold_all_St.
       rewrite (Hloop i ch stolen Hs Hkids Hfh cs Hinc Hndcs true).
-      + rewrite release_all_St, (remove_all_rev _ _ (NoDup_kid_ids cs Hndcs)), Hrel.
+      + rewrite Hrel.
         assert (HC : flat_map (F3 (w_fchild i) stolen) cs = C).
         { subst cs C. unfold kids_remove. apply flat_map_filter. intros c Hc Hf.
           rewrite F3_skip. rewrite (Hskip c Hc); [reflexivity|].
           replace w0 with (t_id c) by (clear - Hf; lia). apply t_id_in. }
         rewrite HC. cbn [orb]. reflexivity.
       + intros _ c Hc. apply filter_In in Hc. destruct Hc as (Hc & Hf). split; [clear - Hf; lia|]. apply Hskip. exact Hc.
-    - cbn [cur]. rewrite Hfind. cbn [t_kids]. rewrite hold_all_St.
+    - cbn [cur]. rewrite Hfind. cbn [t_kids].
       rewrite (Hloop i ch stolen Hs Hkids Hfh ch (incl_refl ch) Hndch false).
-      + fold C. rewrite release_all_St, (remove_all_rev _ _ Hndk), Hrel. reflexivity.
+      + fold C. rewrite Hrel. reflexivity.
       + intros Hf. discriminate Hf.
   Qed.
 End SelfClose.
@@ -2630,9 +2564,25 @@ Proof.
       by (destruct c; [apply win_expose_forest|split; reflexivity]);
     destruct Hx as (Hx1 & Hx2); rewrite Hx1, Hx2
   end.
+  assert (Hdrag : forall st00 : root,
+            r_tree (match r_dsrc st00 with
+                    | Some src => if negb (d_drag_stale cfg) && id_in src (WinDefs.sub_ids n0)
+                                  then set_drag st00 (r_dragging st00) (r_lbtn st00) (r_lline st00) (r_lcol st00) None
+                                  else st00
+                    | None => st00 end) = r_tree st00 /\
+            r_orphans (match r_dsrc st00 with
+                    | Some src => if negb (d_drag_stale cfg) && id_in src (WinDefs.sub_ids n0)
+                                  then set_drag st00 (r_dragging st00) (r_lbtn st00) (r_lline st00) (r_lcol st00) None
+                                  else st00
+                    | None => st00 end) = r_orphans st00).
+  { intros st00. destruct (r_dsrc st00) as [src|]; [|split; reflexivity].
+    destruct (negb (d_drag_stale cfg) && id_in src (WinDefs.sub_ids n0)); split; reflexivity. }
   match goal with |- context [if ?c then request_restore ?s else ?s] =>
     destruct c
-  end; cbn [request_restore set_flags set_queue set_orphans set_tree r_tree r_orphans]; rewrite Hcut; split; reflexivity.
+  end; cbn [request_restore set_flags r_tree r_orphans];
+  match goal with |- context [r_tree (match r_dsrc ?s00 with Some _ => _ | None => _ end)] =>
+    destruct (Hdrag s00) as (Hd1 & Hd2); rewrite Hd1, Hd2
+  end; cbn [set_queue set_orphans set_tree r_tree r_orphans]; rewrite Hcut; split; reflexivity.
 Qed.
 
 Lemma cut_ids_head w0 t : t_ids (cut w0 t) = t_id t :: flat_map t_ids (t_kids (cut w0 t)).
